@@ -15,7 +15,7 @@
    what was observed. *)
 From Coq Require Import String.
 From OCI Require Import Model.RangeCodec Model.RangeCodecLegacy Model.Upload Model.UploadSpec Model.UploadMem
-  Proofs.RangeCodec Proofs.UploadLaw Proofs.Upload Proofs.UploadMem.
+  Proofs.RangeCodec Proofs.UploadLaw Proofs.Upload Proofs.UploadMem Proofs.UploadPlans.
 Local Open Scope Z_scope.
 
 (* ---- the Content-Range codec (DESIGN C04.2) ---- *)
@@ -170,3 +170,99 @@ Theorem C04_spec_unify_one_hop :
   check hash true ops obs (map (fun d => (d, storU (m_stor repo) st' d)) digests) = true.
 Proof. exact unify_hop1_check. Qed.
 Print Assumptions C04_spec_unify_one_hop.
+
+(* ---- the property in explicit form (Proofs/UploadPlans.v) ---- *)
+
+(* For every lawful backend: every content, every partition of it into Write calls, every
+   chunk-size hint, every subset of the write boundaries at which the writer is closed and
+   resumed, each resume in any of the three modes (by asking the registry only when the
+   bytes received so far are not exactly one): every operation succeeds; a commit with the
+   hash of the concatenation returns its length and stores exactly the concatenation in
+   every registry underneath; a commit with another digest fails and stores nothing. *)
+Theorem C04_plan_commit :
+  forall (S W I : Type) (B : ubackend S W I) hash repo stor rcv Inv Good Syn Uns rs,
+  ulaw B hash repo stor rcv Inv Good Syn Uns rs ->
+  forall http : bool, (if http then rs = 416 else rs = 0 \/ rs = 416) ->
+  forall st0, Inv st0 ->
+  forall h0 ws0 segs d0 d st' cur' obs,
+  let ops := plan_ops h0 ws0 segs ++ [UCommit (d0 :: d)] in
+  let content := concat ws0 ++ later_content segs in
+  later_ok (concat ws0) segs -> weight ops <= MAX64 ->
+  run_script B repo st0 None ops = (st', cur', obs) ->
+  exists obs1 ob, obs = obs1 ++ [ob] /\ Forall ok_res obs1 /\
+    ((d0 :: d) = hash content ->
+       uo_res ob = UOk (blen content) /\
+       forall x, stor st' x = put_view (d0 :: d) content x (stor st0 x)) /\
+    ((d0 :: d) <> hash content ->
+       is_uerr (uo_res ob) = true /\ forall x, stor st' x = stor st0 x).
+Proof.
+  intros S W I B hash repo stor rcv Inv Good Syn Uns rs L http Hrs st0 Hi.
+  exact (plan_commit B hash repo stor rcv Inv Good Syn Uns rs L http Hrs st0 Hi).
+Qed.
+Print Assumptions C04_plan_commit.
+
+(* For every lawful backend: after any such upload, closed, a resume at an explicit offset
+   other than what the registry has received, followed by writes that carry at least one
+   byte and a Close, has one of these operations refused as range-invalid (with HTTP
+   status 416 over HTTP); the upload is not altered: resumed at the right offset it takes
+   further writes and commits as exactly the bytes written through well-positioned writers. *)
+Theorem C04_wrong_offset_refused :
+  forall (S W I : Type) (B : ubackend S W I) hash repo stor rcv Inv Good Syn Uns rs,
+  ulaw B hash repo stor rcv Inv Good Syn Uns rs ->
+  forall http : bool, (if http then rs = 416 else rs = 0 \/ rs = 416) ->
+  forall st0, Inv st0 ->
+  forall h0 ws0 segs off h1 ews h2 ws2 st' cur' obs,
+  let g := concat ws0 ++ later_content segs in
+  let content := g ++ concat ws2 in
+  let d := hash content in
+  let ops := plan_ops h0 ws0 segs ++ UClose :: UResume (MAt off) h1 :: (map UWrite ews ++ [UClose])
+             ++ UResume (MAt (blen g)) h2 :: map UWrite ws2 ++ [UCommit d] in
+  later_ok (concat ws0) segs -> 0 <= off -> off <> blen g -> concat ews <> [] -> d <> [] ->
+  weight ops <= MAX64 ->
+  run_script B repo st0 None ops = (st', cur', obs) ->
+  exists obs1 obe obs2 ob,
+    obs = obs1 ++ obe ++ obs2 ++ [ob] /\
+    Exists (fun o => is_range_refusal http (uo_res o) = true) obe /\
+    uo_res ob = UOk (blen content) /\
+    forall x, stor st' x = put_view d content x (stor st0 x).
+Proof.
+  intros S W I B hash repo stor rcv Inv Good Syn Uns rs L http Hrs st0 Hi.
+  exact (wrong_offset_refused B hash repo stor rcv Inv Good Syn Uns rs L http Hrs st0 Hi).
+Qed.
+Print Assumptions C04_wrong_offset_refused.
+
+(* The stacks of the property are lawful backends (so the two theorems above apply to them,
+   from the empty registry [init], with http = false for ocimem and ociunify over ocimem,
+   true for the others): ocimem by C04_mem_contract, and *)
+Theorem C04_stacks_lawful :
+  forall hash vd vr vt di dx cfg repo, vr repo = true ->
+  forall pieces, (forall b, concat (pieces b) = b) ->
+  let MB := mem_backend hash vd vr vt di dx cfg in
+  let H1 := hop1 hash vd vr vt di dx cfg pieces in
+  let H2 := hop2 hash vd vr vt di dx cfg pieces in
+  (exists rcv Good Syn Uns, ulaw H1 hash repo (m_stor repo) rcv (m_Inv repo) Good Syn Uns 416) /\
+  (exists rcv Good Syn Uns, ulaw H2 hash repo (m_stor repo) rcv (m_Inv repo) Good Syn Uns 416) /\
+  (exists rcv Good Syn Uns, ulaw (unify_backend MB MB) hash repo (storU (m_stor repo)) rcv (InvU (m_Inv repo)) Good Syn Uns 0) /\
+  (exists rcv Good Syn Uns, ulaw (unify_backend H1 H1) hash repo (storU (m_stor repo)) rcv (InvU (m_Inv repo)) Good Syn Uns 416) /\
+  m_Inv repo init /\ InvU (m_Inv repo) (init, init).
+Proof.
+  intros hash vd vr vt di dx cfg repo Hvr pieces Hp MB H1 H2.
+  split; [do 4 eexists; exact (hop1_law hash vd vr vt di dx cfg repo Hvr pieces Hp)|].
+  split; [do 4 eexists; exact (hop2_law hash vd vr vt di dx cfg repo Hvr pieces Hp)|].
+  split; [do 4 eexists; exact (unify_mem_law hash vd vr vt di dx cfg repo Hvr)|].
+  split; [do 4 eexists; exact (unify_hop1_law hash vd vr vt di dx cfg repo Hvr pieces Hp)|].
+  split; [apply init_inv | split; [reflexivity | apply init_inv]].
+Qed.
+Print Assumptions C04_stacks_lawful.
+
+(* The hypotheses are satisfiable by non-trivial values: a one-byte content written in one
+   piece, closed, resumed at the reported size and committed over two hops is stored. *)
+Example C04_two_hops_one_byte :
+  let hash := fun c : bytes => 104%N :: c in
+  let B := hop2 hash (fun _ => true) (fun _ => true) (fun _ => true) (fun _ => None) (fun _ => None)
+                {| immutable_tags := false |} (fun b => match b with [] => [] | _ => [b] end) in
+  let ops := plan_ops 0 [[97%N]] [(MSize, 0, [])] ++ [UCommit (hash [97%N])] in
+  let '(st', _, obs) := run_script B (s "foo/bar") init None ops in
+  map uo_res obs = [UOk 0; UOk 1; UOk 0; UOk 0; UOk 1] /\
+  m_stor (s "foo/bar") st' (hash [97%N]) = [Some [97%N]].
+Proof. vm_compute. split; reflexivity. Qed.
